@@ -13,6 +13,7 @@ pub mod adjsut;
 pub mod append;
 pub mod graphmap;
 pub mod matrix;
+pub mod replicas;
 pub mod stream;
 pub mod visit;
 pub mod unionfind;
@@ -165,6 +166,7 @@ pub fn get(name: &str) -> Option<Box<dyn Engine>> {
         "acyclic-graph" => Box::new(H(acyclic::AcyclicEngine { stable: false })),
         "acyclic-stable" => Box::new(H(acyclic::AcyclicEngine { stable: true })),
         "serde-stream" => Box::new(H(stream::StreamEngine)),
+        "replicas" => Box::new(H(replicas::ReplicaEngine)),
         "graphmap-visit" => Box::new(H(graphmap::GraphMapEngine { visit: true })),
         _ => return None,
     })
